@@ -177,7 +177,8 @@ def replay_history(rng, tier, rtcp=False, n_ssrc=None, steps=None):
                 if hi[s] is None:
                     idx = start[s]
                 else:
-                    idx = hi[s] + rng.choice([1, 1, 1, 2, 3, eff_ws - 1, eff_ws, eff_ws + 1, 5000, 30000])
+                    # the sender's own estimator follows a jump only below 2^15 (the property's premise on both sides)
+                    idx = hi[s] + min(rng.choice([1, 1, 1, 2, 3, eff_ws - 1, eff_ws, eff_ws + 1, 5000, 30000]), 32767)
                 hi[s] = idx
                 pkt = rtp_packet(s, idx & 0xffff, payload=idx.to_bytes(6, "big"))
                 L.append(pkt_op("protect", 1, pkt, extra=40))
